@@ -2,7 +2,7 @@
    ExtrOcamlBasic only: bool, option, unit, list, prod, sumbool map to OCaml's;
    nat, positive, N, Z stay inductive.  No Extract Constant. *)
 From Coq Require Import Extraction ExtrOcamlBasic.
-From JP Require Import Base Json PyStr Fluent ListSpec Pointer RelPointer Patch Rfc6901 RelPtrDraft PointerDomain Rfc6902 Edit Syntax Eval EvalAsync Regex Rfc9535 Rfc9535Typing NormPath Project ProjectSpec Lex Parse Serialize Cache Gate Cli CliSpec TokPrint Printable Reparsable NormDomain.
+From JP Require Import Base Json PyStr Fluent ListSpec Pointer RelPointer Patch Rfc6901 RelPtrDraft PointerDomain Rfc6902 Edit Syntax Eval EvalAsync Regex Rfc9535 Rfc9535Typing NormPath Project ProjectSpec Lex Parse Serialize Cache Gate Cli CliSpec TokPrint Printable Reparsable NormDomain TokensOk.
 Extraction Language OCaml.
 Extraction "extract/model.ml"
   Fluent.observe ListSpec.sobserve
@@ -26,5 +26,5 @@ Extraction "extract/model.ml"
   NormPath.normpath NormPath.valid_normpath
   Lex.tokenize Parse.compile Parse.fn_sig Serialize.query_text Cache.finditer_c Cache.cache_positions Cache.cacheable Cache.any_cacheable Cache.volatile
   TokPrint.query_toks TokPrint.norm_query Parse.compile_tokens
-  Gate.gate_query NormDomain.c10_domain NormDomain.floats_stable Reparsable.floats_ok Cli.cli_run Cli.attrs_defined CliSpec.demanded CliSpec.rejections
+  Gate.gate_query TokensOk.tokens_ok NormDomain.c10_domain NormDomain.floats_stable Reparsable.floats_ok Cli.cli_run Cli.attrs_defined CliSpec.demanded CliSpec.rejections
   Project.select Project.select_one ProjectSpec.project_tree ProjectSpec.selections_ok ProjectSpec.keys_only ProjectSpec.project_flat ProjectSpec.project_root.
